@@ -51,7 +51,8 @@ def cases(draw, tier):
         # strings; orderings of "9" and "10" must not matter)
         big, small = draw(st.integers(9, 14)), draw(st.integers(1, 4))
         shape = (big, small) if draw(st.booleans()) else (small, big)
-    spec = draw(gen.h5_table_specs(tier, values=vk, ids=idk, shape=shape))
+    spec = draw(gen.h5_table_specs(tier, values=vk, ids=idk, shape=shape,
+                                   big=True))
     spec["obs_gmd"] = spec["samp_gmd"] = None
     axis_, mask_ = draw(ops.AX), draw(ops.MASK)
     n_ax = len(spec["samp"] if axis_ == "sample" else spec["obs"])
